@@ -20,8 +20,26 @@ def _scripts(n, seed, depth=(1, 2, 2, 3), multi=True, kinds=None, schemas=("sa",
                 stmts.append(sqlgen.Stmt("insert", g.target(), sqlgen.Select([sqlgen.Item(None, is_star=True)], [sqlgen.Group(sqlgen.Base(t.name, t.schema))])))
             if rnd.random() < 0.3 and t is not None:
                 stmts.append(sqlgen.Stmt("rename", sqlgen.Base(t.name, t.schema), None, None, {"to": g.target()}))
-        out.append(";\n".join(sqlgen.render(s) for s in stmts))
+        text = ";\n".join(sqlgen.render(s) for s in stmts)
+        tags = set()
+        for s in stmts:
+            tags |= s.tags()
+        out.append(_Script(text, tags))
     return out
+
+
+class _Script(str):
+    """script text that remembers the AST tags of its statements (used to keep dialects whose grammar lacks a join form away from it)"""
+
+    def __new__(cls, text, tags):
+        o = super().__new__(cls, text)
+        o.tags = tags
+        return o
+
+
+def _dialect_for(sql, d):
+    # where the dialect's grammar does not know NATURAL / USING it reads the keyword as a table alias: the text then means something else
+    return d if common.is_core_for(d, getattr(sql, "tags", ())) else "ansi"
 
 
 def cases_for_invariants(tier):
@@ -30,7 +48,7 @@ def cases_for_invariants(tier):
     out = []
     for i, sql in enumerate(_scripts(n, seed)):
         d = "ansi" if i % 4 else ["mysql", "postgres", "sparksql", "snowflake", "bigquery", "non-validating"][i // 4 % 6]
-        out.append({"sql": sql, "dialect": d, "metadata": None, "silent": False, "want": ["inv"], "src": "generated"})
+        out.append({"sql": str(sql), "dialect": _dialect_for(sql, d), "metadata": None, "silent": False, "want": ["inv"], "src": "generated"})
     # column graphs with cycles (tables that feed each other), with and without an exit to an ordinary target
     cyc = [
         "insert into ta select k from tc; insert into tb select k from ta; insert into tc select k from tb; insert into out_t select k from tb",
@@ -67,5 +85,13 @@ def cases_for_rewrites(tier, rnd):
     out = []
     for i, sql in enumerate(_scripts(n, common.env.seed() * 13 + 505, multi=False, schemas=("sa", "dbx.scy", "sb"))):
         d = "ansi" if i % 3 else ["mysql", "postgres", "sparksql", "snowflake", "bigquery", "tsql"][i // 3 % 6]
-        out.append({"sql": sql, "dialect": d, "metadata": None, "src": "generated"})
+        out.append({"sql": str(sql), "dialect": _dialect_for(sql, d), "metadata": None, "src": "generated"})
+    # multi-statement scripts (statement boundaries are token boundaries too)
+    m = 0
+    for i, sql in enumerate(_scripts(n // 2, common.env.seed() * 13 + 506, depth=(1, 1, 2), multi=True)):
+        if sql.count(";\n") < 1:
+            continue
+        d = "ansi" if m % 3 else ["mysql", "postgres", "sparksql", "snowflake", "bigquery", "non-validating"][m // 3 % 6]
+        m += 1
+        out.append({"sql": str(sql) + (";" if m % 2 else ""), "dialect": _dialect_for(sql, d), "metadata": None, "src": "generated:script"})
     return out
